@@ -10,3 +10,5 @@ pub assume_specification<T, U, F: FnOnce(T) -> U>[Option::<T>::map_or](o: Option
     ensures o is None ==> r == default, o is Some ==> f.ensures((o->Some_0,), r);
 pub assume_specification<T>[std::mem::replace](dest: &mut T, src: T) -> (r: T)
     ensures r == *old(dest), *final(dest) == src;
+pub assume_specification<T, E>[Result::<T, E>::unwrap_or](x: Result<T, E>, d: T) -> (r: T)
+    ensures r == (match x { Ok(v) => v, Err(_) => d });
